@@ -691,7 +691,53 @@ def r5_rebased_positions(ctx, prefix="cascette_"):
     ctx.floor(rule, n, 2, "accelerated kernels that return a position")
 
 
+SIGNED8 = re.compile(r"core::core_arch::x86(_64)?::\w+::_mm\d*_(cmpgt|cmplt|max|min)_epi8$")
+
+
+def signed_byte_compares(b):
+    """calls of intrinsics that ORDER bytes as signed (`pcmpgtb`, `pmaxsb` ...) whose operands were not biased by 0x80 first"""
+    out = []
+    for c in b.calls:
+        if c.bb not in b.live_blocks() or not SIGNED8.search(c.name):
+            continue
+        biased = True
+        for a in c.args:
+            l = op_local(a)
+            if l is None:
+                biased = False
+                continue
+            sl = Slice(b, [l], transparent=True)
+            if not any(re.search(r"_mm\d*_xor_si\d+$|_mm\d*_(add|sub)_epi8$", x.name) for x in sl.calls):
+                biased = False
+        if not biased:
+            out.append(c)
+    return out
+
+
+def r6_unsigned_order(ctx, prefix="cascette_"):
+    """the portable fallbacks order `u8` slices (Ord for [u8] is unsigned, lexicographic). x86 has no unsigned byte compare before AVX-512: `pcmpgtb` /
+    `pmaxsb` order bytes as SIGNED, so a kernel that takes an ordering from them answers the opposite of the fallback whenever exactly one of the two
+    bytes is >= 0x80 - unless both operands were first XORed with 0x80 (the usual bias)"""
+    rule = "C09.R6"
+    ctx.rule(rule, "no accelerated kernel over byte slices orders bytes with a signed compare / max / min intrinsic on unbiased operands")
+    n = 0
+    for b in sorted(ctx.prog.bodies.values(), key=lambda x: x.id):
+        if not b.krate.startswith(prefix) or not (b.rec.get("tf") or (b.root and (ctx.prog.bodies.get(b.root) and ctx.prog.bodies[b.root].rec.get("tf")))):
+            continue
+        if not any("[u8]" in (b.local_ty(k) or "") for k in range(1, b.argc + 1)):
+            continue
+        n += 1
+        ctx.saw(b)
+        bad = signed_byte_compares(b)
+        ctx.check(not bad, rule, [b.id, "unsigned-order"], "no signed byte ordering on unbiased operands",
+                  "%s takes an ordering of bytes from %s, which compares them as SIGNED: for two bytes on different sides of 0x80 the kernel answers the "
+                  "opposite of the portable fallback (which orders u8), so binary keys sort and compare differently on accelerated hosts" %
+                  (ctx._stable(b.id), bad[0].name.split("::")[-1] if bad else "?"), bad[0].loc() if bad else b.loc())
+    ctx.floor(rule, n, 10, "accelerated kernels over byte slices")
+
+
 def run(ctx):
+    r6_unsigned_order(ctx)
     r5_rebased_positions(ctx)
     r1_dispatch(ctx)
     r2_vector_bounds(ctx)
